@@ -109,6 +109,17 @@ def parseLine (d : DSt) (ts : List String) : Parsed :=
   -- whole-object windows of the multi-word payload (vpayload_lr.hpp): both ends of an in-place modification are
   -- writes; a copy assignment reads its source at the begin and writes its target at the end ("?" = a temporary)
   | ["pwb", x] => mk x (fun x => .wr x) "payload" false
+  -- destruction / deallocation of a traced heap block (rcu_list nodes `N<k>` and log records `Z<k>`): a plain write of the
+  -- block's plain payload field (`data` / `zombie_node`) if that field has been accessed before - every earlier access to
+  -- the block must happen-before its reclamation (the happens-before content of the grace period, Props/C07_rcu.lean)
+  | ["des", x] =>
+      if d.names.contains (x ++ ".data") then mk (x ++ ".data") (fun x => .wr x) "block-end" false
+      else if d.names.contains (x ++ ".zombie_node") then mk (x ++ ".zombie_node") (fun x => .wr x) "block-end" false
+      else nop "marker"
+  | ["fre", x] =>
+      if d.names.contains (x ++ ".data") then mk (x ++ ".data") (fun x => .wr x) "block-end" false
+      else if d.names.contains (x ++ ".zombie_node") then mk (x ++ ".zombie_node") (fun x => .wr x) "block-end" false
+      else nop "marker"
   | ["cpb", _, y] => if y = "?" then nop "marker" else mk y (fun y => .rd y) "payload" false
   | ["cpe", x, _, _] => if x = "?" then nop "marker" else mk x (fun x => .wr x) "payload" false
   | ["mlk", m] => mk m (fun m => .acq m .X) "lock" true
